@@ -121,7 +121,8 @@ type (
 	pendingMessage struct {
 		message *common.MessagePublication
 		height  uint64
-		// readyAt is the first head at which the message had enough confirmations (0: not yet).
+		// readyAt is the head at which a receipt lookup for the message first failed with a
+		// transient error (0: no lookup has failed so far).
 		readyAt uint64
 	}
 )
@@ -444,14 +445,11 @@ func (w *Watcher) Run(ctx context.Context) error {
 					}
 
 					// The observation is abandoned only after the node failed to confirm it for the
-					// whole window (see the transient error case below). This must not be decided
-					// before the receipt was looked up: the head can advance by more than
-					// maxWaitConfirmations between two polls (e.g. when finality catches up).
-					// The window is counted from the first head at which the receipt could be
-					// looked up, which is later than height+expectedConfirmations after such a jump.
-					if pLock.readyAt == 0 && pLock.height+expectedConfirmations <= blockNumberU {
-						pLock.readyAt = blockNumberU
-					}
+					// whole window (see the transient error case below): the window is counted from the
+					// head at which a lookup first failed, not from the head at which the message became
+					// ready. The head can advance by more than maxWaitConfirmations between two polls
+					// (e.g. when finality catches up), and a lookup cut short by our own shutdown is
+					// not a failure of the node.
 					timedOut := pLock.readyAt != 0 && pLock.readyAt+w.maxWaitConfirmations <= blockNumberU
 
 					// Transaction is now ready
@@ -512,6 +510,9 @@ func (w *Watcher) Run(ctx context.Context) error {
 							continue
 						}
 						if err != nil {
+							if pLock.readyAt == 0 {
+								pLock.readyAt = blockNumberU
+							}
 							logger.Warn("transaction could not be fetched",
 								zap.Stringer("tx", pLock.message.TxHash),
 								zap.Stringer("blockhash", key.BlockHash),
